@@ -180,6 +180,19 @@ fn gen_guest(rng: &mut Rng) -> GuestSpec {
                         t.extend_from_slice(rng.pick(&["a", "\u{e9}", "\u{3042}", "\u{1f600}", "\\", "\n"]).as_bytes());
                     }
                     Block::Write { text: t, dram: true }
+                } else if rng.chance(1, 5) {
+                    // not UTF-8: multi-byte characters everywhere, then one byte that cannot be (the call must end in an error
+                    // - whatever the error text quotes of the buffer)
+                    let n = rng.range(0, 90) as usize;
+                    let mut t: Vec<u8> = Vec::new();
+                    while t.len() < n {
+                        t.extend_from_slice(rng.pick(&["a", "\u{e9}", "\u{3042}", "\u{1f600}", "\n"]).as_bytes());
+                    }
+                    t.push(*rng.pick(&[0xffu8, 0x80, 0xc3, 0xe3, 0xf0, 0xc0, 0xfe]));
+                    if rng.chance(1, 2) {
+                        t.extend_from_slice(b"tail");
+                    }
+                    Block::Write { text: t, dram: rng.chance(1, 2) }
                 } else {
                     Block::Write { text: (0..rng.below(20)).map(|_| *rng.pick(b"ab \n\\")).collect(), dram: rng.chance(1, 2) }
                 }
